@@ -211,9 +211,19 @@ func qBFS(ctx *core.Ctx, pool *par.Pool, cfg QCfgSpec, alphabet []Q, maxDepth in
 
 func qBFSx(ctx *core.Ctx, pool *par.Pool, cfg QCfgSpec, alphabet []Q, maxDepth int, space, probe bool, owns func(class string) bool,
 	onTransition func(from *QNode, s *QSucc, isNew bool)) xstate.Stats {
+	return qBFSfrom(ctx, pool, cfg, nil, alphabet, maxDepth, space, probe, owns, onTransition)
+}
+
+// qBFSfrom starts the search in the state reached by the seed history (part of
+// every reported path).
+func qBFSfrom(ctx *core.Ctx, pool *par.Pool, cfg QCfgSpec, seed []Q, alphabet []Q, maxDepth int, space, probe bool, owns func(class string) bool,
+	onTransition func(from *QNode, s *QSucc, isNew bool)) xstate.Stats {
 
 	var st xstate.Stats
 	root := &QNode{Quiet: true}
+	for _, op := range seed {
+		root = &QNode{Parent: root, Op: op, Quiet: true}
+	}
 	seen := map[string]*QNode{}
 	frontier := []*QNode{root}
 	first := true
